@@ -82,6 +82,7 @@ CoreOps == Range(CoreOpSeq)
 FinalOps == Range(FinalOpSeq)
 NoDev == {}
 DevNoProbe == {"NoProbe"}
+DevProbeEofOnly == {"ProbeEofOnly"}
 DevNoCloseOnUnclean == {"NoCloseOnUnclean"}
 DevNoDiscardOnError == {"NoDiscardOnError"}
 DevRawNotReady == {"RawNotReady"}
